@@ -87,7 +87,10 @@ def main():
         if rep.exists():
             shutil.copy(rep, d / "REPORT.md")
         (d / "meta.json").write_text(json.dumps(meta, indent=1))
-    print(json.dumps({k: v for k, v in meta.items() if k != "needs_to_manifest"}, indent=1)[:3000])
+    slim = {k: v for k, v in meta.items() if k != "needs_to_manifest"}
+    for c in slim.get("checks", {}).values():
+        c.pop("replay_excerpt", None)
+    print(json.dumps(slim, indent=1)[:6000])
     return 0
 
 
